@@ -24,7 +24,7 @@ static void op_classify(int nt, char **t) {
     int rt = (int) tok_ll(t[1]);
     size_t n; unsigned char *b = hexbuf(t[2], &n);
     unsigned char *copy = __real_malloc(n); memcpy(copy, b, n);
-    struct libwifi_frame f; memset(&f, 0x5A, sizeof f);
+    struct libwifi_frame f; memset(&f, prefill, sizeof f);
     int r;
     LIB(r = libwifi_get_wifi_frame(&f, b, n, rt));
     int modified = memcmp(copy, b, n) != 0;
@@ -56,7 +56,7 @@ static void op_eapol(int nt, char **t) {
     (void) nt;
     int rt = (int) tok_ll(t[1]);
     size_t n; unsigned char *b = hexbuf(t[2], &n);
-    struct libwifi_frame f; memset(&f, 0x5A, sizeof f);
+    struct libwifi_frame f; memset(&f, prefill, sizeof f);
     int r;
     LIB(r = libwifi_get_wifi_frame(&f, b, n, rt));
     memset(b, 0xEE, n); __real_free(b);
@@ -67,7 +67,7 @@ static void op_eapol(int nt, char **t) {
     LIB(msg = libwifi_check_wpa_message(&f));
     LIB(ms = libwifi_get_wpa_message_string(&f));
     LIB(kdl = libwifi_get_wpa_key_data_length(&f));
-    struct libwifi_wpa_auth_data d; memset(&d, 0x5A, sizeof d);
+    struct libwifi_wpa_auth_data d; memset(&d, prefill, sizeof d);
     LIB(gr = libwifi_get_wpa_data(&f, &d));
     printf("eapol hs=%s msg=%d,%s kdl=%s%d data=", hs < 0 ? "err" : "1", msg, ms, kdl < 0 ? "err" : "", kdl < 0 ? 0 : kdl);
     if (gr != 0) printf("err");
@@ -117,7 +117,7 @@ static void op_mgmt(int nt, char **t) {
     (void) nt;
     int rt = (int) tok_ll(t[1]);
     size_t n; unsigned char *b = hexbuf(t[2], &n);
-    struct libwifi_frame f; memset(&f, 0x5A, sizeof f);
+    struct libwifi_frame f; memset(&f, prefill, sizeof f);
     int r;
     LIB(r = libwifi_get_wifi_frame(&f, b, n, rt));
     memset(b, 0xEE, n); __real_free(b);
@@ -130,21 +130,21 @@ static void op_mgmt(int nt, char **t) {
     static const struct { const char *nm; stap fn; } SP[] = { {"probe_req", libwifi_parse_probe_req}, {"assoc_req", libwifi_parse_assoc_req},
         {"reassoc_req", libwifi_parse_reassoc_req} };
     for (int i = 0; i < 4; i++) {
-        struct libwifi_bss bss; memset(&bss, 0x5A, sizeof bss);
+        struct libwifi_bss bss; memset(&bss, prefill, sizeof bss);
         int pr; LIB(pr = BP[i].fn(&bss, &f));
         printf(" %s=", BP[i].nm);
         if (pr != 0) printf("err"); else print_bss(&bss);
         LIB(libwifi_free_bss(&bss));
     }
     for (int i = 0; i < 3; i++) {
-        struct libwifi_sta sta; memset(&sta, 0x5A, sizeof sta);
+        struct libwifi_sta sta; memset(&sta, prefill, sizeof sta);
         int pr; LIB(pr = SP[i].fn(&sta, &f));
         printf(" %s=", SP[i].nm);
         if (pr != 0) printf("err"); else print_sta(&sta);
         LIB(libwifi_free_sta(&sta));
     }
     {
-        struct libwifi_parsed_deauth d; memset(&d, 0x5A, sizeof d);
+        struct libwifi_parsed_deauth d; memset(&d, prefill, sizeof d);
         int pr; LIB(pr = libwifi_parse_deauth(&d, &f));
         printf(" deauth=");
         if (pr != 0) printf("err"); else { printf("o%d,", d.ordered); out_hex((unsigned char *) &d.frame_header, d.ordered ? 28 : 24);
@@ -152,7 +152,7 @@ static void op_mgmt(int nt, char **t) {
         if (pr == 0 || 1) LIB(free(pr == 0 ? d.tags.parameters : (d.tags.length ? d.tags.parameters : NULL)));   /* no release routine exists (F33) */
     }
     {
-        struct libwifi_parsed_disassoc d; memset(&d, 0x5A, sizeof d);
+        struct libwifi_parsed_disassoc d; memset(&d, prefill, sizeof d);
         int pr; LIB(pr = libwifi_parse_disassoc(&d, &f));
         printf(" disassoc=");
         if (pr != 0) printf("err"); else { printf("o%d,", d.ordered); out_hex((unsigned char *) &d.frame_header, d.ordered ? 28 : 24);
